@@ -381,7 +381,7 @@ impl<const S: usize> ServerConnectionHandler<S> {
                 (_, SinkState::Requested) => return Poll::Pending,
                 (None, SinkState::None) => return Poll::Pending,
                 (None, SinkState::Ready(sink)) => {
-                    if ready!(sink.poll_flush_unpin(cx)).is_err() {
+                    if ready!(vprobe!("sf", sink.poll_flush_unpin(cx))).is_err() {
                         self.close_sink_on_error("poll_flush_unpin");
                     }
 
@@ -389,14 +389,19 @@ impl<const S: usize> ServerConnectionHandler<S> {
                 }
                 (Some(_), SinkState::None) => return self.open_new_substream(),
                 (pending_messages @ Some(_), SinkState::Ready(sink)) => {
-                    if ready!(sink.poll_flush_unpin(cx)).is_err() {
+                    if ready!(vprobe!("sf", sink.poll_flush_unpin(cx))).is_err() {
                         self.close_sink_on_error("poll_flush_unpin before sending message");
                         continue;
                     }
 
                     let message = take_next_message(pending_messages);
 
-                    if sink.start_send_unpin(&message).is_err() {
+                    if vprobe!(
+                        format!("ss:{}:{}", message.payload.len(), message.get_size()),
+                        sink.start_send_unpin(&message)
+                    )
+                    .is_err()
+                    {
                         self.close_sink_on_error("start_send_unpin");
                         continue;
                     }
